@@ -10,11 +10,17 @@ Correspondence:
  (b) the attribute block the real SFTPClient / SFTPFile methods put on the wire for chmod/chown/utime/truncate
      (captured at _request) and the calls it leads to, vs the model's `op`;
  (c) the model's truncate semantics vs os.truncate on a real file (ties the OS law used by the theorem).
+By-path operations depend on the client's emulated working directory: the session does chdir (None, "/", "/sub",
+"/sub/deep", absolute and relative), paths are given relative ("f", "./f", "../f", "sub/f"), bare and absolute, and
+the same file name exists with different contents in /, /sub and /sub/deep on the served and the twin side; the
+path each SETSTAT carries (and its canonical form) is compared with the model's _adjust_cwd, and all three copies
+are compared with their twins (an operation that lands on a same-named file elsewhere is `acts-on-wrong-file`).
 Oracle (model-independent): a real session against tests._stub_sftp.StubSFTPServer; every operation is applied
 to the served file through SFTPClient (by path) or SFTPFile (by open handle) and to a twin file with
 os.chmod/os.chown/os.utime/os.truncate; contents, mode, owner, size (and integer times for utime) must be equal.
 """
 import os
+import posixpath
 import shutil
 import stat
 import struct
@@ -132,6 +138,7 @@ def run(ctx):
     from paramiko import SFTPAttributes as A
     from paramiko.message import Message
     from paramiko.sftp import CMD_SETSTAT
+    from paramiko.sftp_si import SFTPServerInterface
     from pv import lib_sftploop as lib
     from pv.props.c33 import guarded_message, Runaway
 
@@ -186,12 +193,14 @@ def run(ctx):
     n_ops = 4000 if ctx.thorough else 300
     root = tempfile.mkdtemp(prefix="pv-c31-srv-")
     twin_root = tempfile.mkdtemp(prefix="pv-c31-twin-")
-    op_reqs, op_meta, trunc_reqs, trunc_meta = [], [], [], []
+    op_reqs, op_meta, trunc_reqs, trunc_meta, path_reqs, path_meta = [], [], [], [], [], []
     try:
         with lib.Session(root=root) as s:
             client = s.client
             captured = []
             orig_request = client._request
+
+            sent_paths = []
 
             def recording_request(t, *args):
                 for it in args:
@@ -199,24 +208,68 @@ def run(ctx):
                         m = Message()
                         it._pack(m)
                         captured.append(m.asbytes())
+                if t == CMD_SETSTAT:
+                    sent_paths.append(args[0])
                 return orig_request(t, *args)
 
             client._request = recording_request
+            DIRS = ["/", "/sub", "/sub/deep"]
+            for base in (root, twin_root):
+                os.makedirs(os.path.join(base, "sub", "deep"))
+            cwd = None
+            si_plain = SFTPServerInterface(None)
             for i in range(n_ops):
+                if i % 6 == 0 and i:  # the client's emulated working directory is part of the state
+                    cwd = rng.choice([None, "/", "/sub", "/sub/deep", "/sub/deep"])
+                    try:
+                        if cwd == "/sub/deep" and rng.random() < 0.5:
+                            client.chdir("/sub")
+                            client.chdir("deep")  # relative to the current one
+                        else:
+                            client.chdir(cwd)
+                    except IOError as e:
+                        raise InfraError("chdir(%r) failed: %r" % (cwd, e))
+                    if client.getcwd() != cwd:
+                        ctx.fail("chdir-state", {"chdir": cwd}, "getcwd() = %r" % (client.getcwd(),))
                 size = rng.choice([0, 1, 5, 11, 300, 4096, rng.randrange(0, 6000), rng.randrange(0, 70000)])
                 content = rng.randbytes(size)
                 if i == 0:
                     content = b"hello world"  # DESIGN.md section 7: truncating it to 5 must leave b"hello"
                     size = len(content)
                 name = "f%d" % i
-                served, twin = os.path.join(root, name), os.path.join(twin_root, name)
                 mode0 = rng.choice([0o644, 0o600, 0o755, 0o640])
                 t0 = (rng.randrange(1, 1 << 31), rng.randrange(1, 1 << 31))
-                for p in (served, twin):
-                    with open(p, "wb") as f:
-                        f.write(content)
-                    os.chmod(p, mode0)
-                    os.utime(p, t0)
+                # the same name exists in the root, in /sub and in /sub/deep (decoys), on the served and the twin side
+                tdir = rng.choice(DIRS) if i else "/"
+                forms = ["abs"]
+                if cwd is not None:
+                    if tdir == cwd:
+                        forms += ["rel", "rel", "rel", "dot"]
+                    if posixpath.dirname(cwd.rstrip("/")) in (tdir, tdir.rstrip("/")) and cwd != "/":
+                        forms += ["dotdot", "dotdot"]
+                    if cwd == "/" and tdir != "/":
+                        forms += ["relsub"]
+                elif tdir == "/":
+                    forms += ["bare"]  # no chdir yet: the server resolves a bare name against its root
+                form = rng.choice(forms)
+                pathform = {"abs": posixpath.join(tdir, name), "rel": name, "dot": "./" + name,
+                            "dotdot": "../" + name, "relsub": posixpath.join(tdir, name).lstrip("/"),
+                            "bare": name}[form]
+                intended = posixpath.normpath(posixpath.join(cwd or "/", pathform))
+                if intended != posixpath.join(tdir, name):
+                    raise InfraError("generator: %r from %r does not name %r" % (pathform, cwd, tdir))
+                copies = {}
+                for d_ in DIRS:
+                    data_ = content if d_ == tdir else rng.randbytes(rng.choice([size, size + 3, 7]))
+                    copies[d_] = data_
+                    for base in (root, twin_root):
+                        p = os.path.join(base, d_.strip("/"), name)
+                        with open(p, "wb") as f:
+                            f.write(data_)
+                        os.chmod(p, mode0)
+                        os.utime(p, t0)
+                served = os.path.join(root, tdir.strip("/"), name)
+                twin = os.path.join(twin_root, tdir.strip("/"), name)
                 kind = rng.choice(["chmod", "chown", "utime", "truncate", "truncate", "truncate", "combo"])
                 if i == 0:
                     kind = "truncate"
@@ -260,9 +313,10 @@ def run(ctx):
                         if "size" in groups:
                             os.truncate(p, n)
                 case = {"op": kind, "args": list(args), "route": "handle" if by_handle else "path", "file_size": size,
-                        "initial_mode": oct(mode0)}
+                        "initial_mode": oct(mode0), "cwd": cwd, "path": pathform, "names": intended}
                 # --- through SFTP
                 del captured[:]
+                del sent_paths[:]
                 sftp_err = None
                 try:
                     if kind == "combo":
@@ -273,16 +327,16 @@ def run(ctx):
                             a.st_atime, a.st_mtime = at, mt
                         if "size" in groups:
                             a.st_size = n
-                        client._request(CMD_SETSTAT, "/" + name, a)
+                        client._request(CMD_SETSTAT, client._adjust_cwd(pathform), a)
                     elif by_handle:
-                        fh = client.open("/" + name, "r+")
+                        fh = client.open(pathform, "r+")
                         del captured[:]  # OPEN carries an (empty) attribute block of its own
                         try:
                             getattr(fh, kind)(*args)
                         finally:
                             fh.close()
                     else:
-                        getattr(client, kind)("/" + name, *args)
+                        getattr(client, kind)(pathform, *args)
                 except IOError as e:
                     if isinstance(e, TimeoutError):
                         raise InfraError("SFTP request timed out")
@@ -302,6 +356,13 @@ def run(ctx):
                     ctx.dist("truncate:" + ("shrink" if n < size else "same" if n == size else "extend"))
                 if len(ctx.samples) < 5:
                     ctx.sample({"case": case, "after": show(got)})
+                ctx.dist("cwd:%s path:%s" % ("none" if cwd is None else "root" if cwd == "/" else "subdir", form))
+                wrong = [d_ for d_ in DIRS if d_ != tdir and
+                         snapshot(os.path.join(root, d_.strip("/"), name), False) !=
+                         snapshot(os.path.join(twin_root, d_.strip("/"), name), False)]
+                if wrong:
+                    ctx.fail("acts-on-wrong-file:%s:%s" % (kind, "handle" if by_handle else "path"), case,
+                             "the same-named file in %s changed; the operation names %s" % (wrong, intended))
                 if (sftp_err is None) != (twin_err is None):
                     ctx.fail("error-outcome-differs", case, "sftp raised %s, os call raised %s" % (sftp_err, twin_err))
                 else:
@@ -321,21 +382,37 @@ def run(ctx):
                     op_meta.append((case, "%s | %s" % (hx(captured[0]), recorded_set_file_attr(srvmod, attr))))
                 elif model_op is not None:
                     ctx.disagree("client request capture", case, "one attribute block", "%d blocks" % len(captured))
+                # --- correspondence (b'): the path a by-path request names (client cwd state), and its canonical form
+                if not by_handle and kind != "combo":
+                    if len(sent_paths) == 1:
+                        sp = sent_paths[0]
+                        sp = sp if isinstance(sp, bytes) else sp.encode("utf-8")
+                        path_reqs.append("path %s %s" % ("none" if cwd is None else hx(cwd.encode()), hx(pathform.encode())))
+                        path_meta.append((case, "%s | %s" % (hx(sp), hx(si_plain.canonicalize(sp.decode("utf-8")).encode()))))
+                    else:
+                        ctx.disagree("by-path request capture", case, "one SETSTAT", "%d SETSTAT requests" % len(sent_paths))
                 # --- correspondence (c): truncate semantics of the OS vs the model's
                 if kind == "truncate" and twin_err is None and size <= 6000 and n <= 12000:
                     trunc_reqs.append("trunc %s %d" % (hx(content), n))
                     trunc_meta.append((case, hx(want["content"])))
-                for p in (served, twin):
-                    try:
-                        os.remove(p)
-                    except OSError:
-                        pass
+                for d_ in DIRS:
+                    for base in (root, twin_root):
+                        try:
+                            os.remove(os.path.join(base, d_.strip("/"), name))
+                        except OSError:
+                            pass
     except lib.SessionError as e:
         raise InfraError("sftp loopback session: %s" % e)
     finally:
         shutil.rmtree(root, ignore_errors=True)
         shutil.rmtree(twin_root, ignore_errors=True)
 
+    m3 = ctx.driver("C31", path_reqs)
+    if m3 is not None:
+        for (case, impl), got in zip(path_meta, m3):
+            ctx.dist("by-path-request-vs-model")
+            if got != impl:
+                ctx.disagree("by-path request path (_adjust_cwd) | canonical", case, got, impl)
     m2 = ctx.driver("C31", op_reqs + trunc_reqs)
     if m2 is not None:
         for (case, impl), got in zip(op_meta, m2[:len(op_reqs)]):
@@ -351,7 +428,10 @@ META = {
     "claimed": True,
     "level": ("Partial (OS trusted). Proved in Lean: for every client operation chmod/chown/utime/truncate (by path or by "
               "handle) with in-range arguments the request encodes, the server decodes it and set_file_attr makes "
-              "exactly the one matching OS call with exactly the client's arguments (client_op_calls), hence the file "
+              "exactly the one matching OS call with exactly the client's arguments (client_op_calls); each of the four "
+              "by-path operations alike names _adjust_cwd(cwd, path) (by_path_request, adjust_absolute/none/relative) and "
+              "a plain name under a canonical working directory resolves on the server to cwd/name "
+              "(relative_name_resolves_under_cwd, composed with the C34 model); hence the file "
               "state afterwards is that of the corresponding os call whatever the OS does (client_op_effect); for "
               "every attribute block (any combination of groups, any bytes) the server never passes None to an OS "
               "call (server_calls_total); under the stated OS law (only truncate touches contents; truncate keeps the "
@@ -370,8 +450,8 @@ META = {
 
 
 def replay(data):
-    """./check C31 --replay <file>: redo the recorded operation on a fresh file (random contents of the recorded size)
-    through a real session and on a twin with os.*"""
+    """./check C31 --replay <file>: redo the recorded operation (same cwd, same path form, decoy files of the same name
+    in /, /sub and /sub/deep) on fresh files through a real session and on twins with os.*"""
     from pv import lib_sftploop as lib
 
     d = data["case"]
@@ -379,27 +459,43 @@ def replay(data):
         print("replay covers single client operations; re-run ./check C31 with VERIF_SEED=%s" % data.get("seed"))
         return 0
     root, twin_root = tempfile.mkdtemp(prefix="pv-c31-srv-"), tempfile.mkdtemp(prefix="pv-c31-twin-")
+    dirs = ["/", "/sub", "/sub/deep"]
     try:
-        content = b"hello world" if d["file_size"] == 11 else os.urandom(d["file_size"])
-        served, twin = os.path.join(root, "f"), os.path.join(twin_root, "f")
-        for p in (served, twin):
-            with open(p, "wb") as f:
-                f.write(content)
-            os.chmod(p, int(d.get("initial_mode", "0o644"), 8))
-            os.utime(p, (1000, 2000))
+        intended = d.get("names", "/f")
+        name = posixpath.basename(intended)
+        for base in (root, twin_root):
+            os.makedirs(os.path.join(base, "sub", "deep"))
+        for k, d_ in enumerate(dirs):
+            content = (b"hello world" if d["file_size"] == 11 else bytes([65 + k]) * d["file_size"]) + bytes([k]) * k
+            for base in (root, twin_root):
+                p = os.path.join(base, d_.strip("/"), name)
+                with open(p, "wb") as f:
+                    f.write(content)
+                os.chmod(p, int(d.get("initial_mode", "0o644"), 8))
+                os.utime(p, (1000, 2000))
         args = [tuple(a) if isinstance(a, list) else a for a in d["args"]]
         with lib.Session(root=root) as s:
+            if d.get("cwd") is not None:
+                s.client.chdir(d["cwd"])
+            path = d.get("path", "/" + name)
             if d["route"] == "handle":
-                fh = s.client.open("/f", "r+")
+                fh = s.client.open(path, "r+")
                 getattr(fh, d["op"])(*args)
                 fh.close()
             else:
-                getattr(s.client, d["op"])("/f", *args)
-        getattr(os, d["op"])(twin, *args)
-        got, want = snapshot(served, d["op"] == "utime"), snapshot(twin, d["op"] == "utime")
-        k = first_diff(want, got)
-        print("served %r\ntwin   %r\n-> %s" % (show(got), show(want), "FAILS (%s differs)" % k if k else "holds"))
-        return 1 if k else 0
+                getattr(s.client, d["op"])(path, *args)
+        getattr(os, d["op"])(os.path.join(twin_root, intended.strip("/")), *args)
+        bad = None
+        for d_ in dirs:
+            tm = d["op"] == "utime" and posixpath.join(d_, name) == intended
+            got = snapshot(os.path.join(root, d_.strip("/"), name), tm)
+            want = snapshot(os.path.join(twin_root, d_.strip("/"), name), tm)
+            k = first_diff(want, got)
+            print("%-10s served %r\n%-10s twin   %r" % (d_, show(got), "", show(want)))
+            if k and bad is None:
+                bad = "%s of %s differs" % (k, posixpath.join(d_, name))
+        print("-> %s" % ("FAILS (%s)" % bad if bad else "holds"))
+        return 1 if bad else 0
     finally:
         shutil.rmtree(root, ignore_errors=True)
         shutil.rmtree(twin_root, ignore_errors=True)
